@@ -402,6 +402,14 @@ def check(ctx):
                dnode, blocked=[K.enclosing_for(graph, dnode)]),
            'within one evaluation of a monitor at most one of the two '
            'requests is issued', construct='create xor delete')
+    # every monitor gets its evaluation: one that is suspended, on target or
+    # rate limited is skipped - it does not end the pass for the others
+    for mloop in [n for n in graph.nodes if n.kind == 'for' and
+                  not K.enclosing_for(graph, n) and
+                  isinstance(n.ast.target, ast.Tuple)]:
+        K.exhaustive_loop(ctx, 'C20.5', func, mloop,
+                          'pass over the monitors (%s)' %
+                          N.txt(mloop.ast.iter)[:40])
     # ---- C20.6 -----------------------------------------------------------
     for node, what in ((cnode, 'create'), (dnode, 'delete')):
         lp = K.enclosing_for(graph, node)
